@@ -239,6 +239,15 @@ let gen_mode seed tier out =
       done) table;
   close_out oc
 
+let deep = nat_of_int 300
+let deep_table : (string * schema list) list = [
+  "PlutusData", [plutusData deep]; "PlutusList", [plutusList deep]; "PlutusMap", [plutusMap deep];
+  "ConstrPlutusData", [constrPlutusData deep]; "Redeemer", [redeemer deep]; "Redeemers", [redeemers deep];
+  "TransactionMetadatum", [metadatum deep]; "MetadataList", [metadataList deep]; "MetadataMap", [metadataMap deep];
+  "GeneralTransactionMetadata", [generalTransactionMetadata deep] ]
+(* the versioned block wraps either header form; only the Praos form has a schema *)
+let lax_exceptions = ["VersionedBlock"]
+
 (* ---------- predictions ---------- *)
 let hash_sizes = ["AnchorDataHash", 32; "AuxiliaryDataHash", 32; "BlockHash", 32; "DataHash", 32; "Ed25519KeyHash", 28;
   "GenesisDelegateHash", 28; "GenesisHash", 28; "KESVKey", 32; "PoolMetadataHash", 32; "ScriptDataHash", 32; "ScriptHash", 28;
@@ -355,7 +364,24 @@ let strip_label (toks : string list) (n : int) : string list =
 
 let run_mode () = run_driver (fun toks impl ->
   match toks with
-  | "dec" :: name :: h :: _ -> let bs = bytes_of_hex h in (predict_dec name bs, verdict_str true bs impl)
+  | "dec" :: name :: h :: _ ->
+    let bs = bytes_of_hex h in
+    let p = predict_dec name bs in
+    (* every CBOR reader of the library consumes exactly one data item and every byte of it: an input whose first
+       item is not well-formed CBOR (Item.v) must be an error (the schema decoder rejects it as well) *)
+    let p = if p = "any" && not (first_item_wf bs) then "err" else p in
+    (* the lenient acceptor of Total/Lax.v accepts every byte form the readers tolerate: what it refuses is an error.
+       Recursive types are schemas unrolled to a depth: Plutus data / metadata are unrolled to 300 levels for this test
+       (their unrolling shares the sub-schema, so this is cheap); the types that contain native scripts stay at the
+       table's depth and the refusal is only trusted for inputs nested at most 8 deep (4 script levels need 9) *)
+    let p = if p = "any" && not (List.mem name lax_exceptions) then begin
+        match (match List.assoc_opt name deep_table with Some ss -> Some (ss, true) | None ->
+               (match List.assoc_opt name table with Some ss -> Some (ss, false) | None -> None)) with
+        | Some (ss, deep_ok) when not (List.exists (fun s -> accepts s bs) ss) ->
+          if deep_ok || int_of_nat (input_depth bs) <= 8 then "err" else p
+        | _ -> p
+      end else p in
+    (p, verdict_str true bs impl)
   | "raw" :: name :: h :: _ -> let bs = bytes_of_hex h in (predict_raw name bs, verdict_str false bs impl)
   | "hex" :: name :: h :: _ ->
     let cs = text_codes h in
